@@ -8,6 +8,7 @@ import (
 	"testing"
 
 	"github.com/gebn/bmc"
+	"github.com/gebn/bmc/pkg/ipmi"
 	"pgregory.net/rapid"
 
 	"verif/harness/evid"
@@ -223,6 +224,23 @@ func attempt(c hx.Creds, m *Mutation) (o outcome) {
 			o.pan = p
 		}
 	}()
+	// what the connection carried before the handshake: nothing, a capabilities
+	// exchange in which the BMC reports two-key login off or on (an unauthenticated
+	// claim that proves nothing), or other session-less commands
+	switch (c.Seed >> 3) % 4 {
+	case 1, 2:
+		w.BMC.Data.ChanAuthCap = ref.ChanAuthCap{Channel: 1, Ext: true, V2: true, V15: c.Seed&1 == 0, NonNull: true, KG: (c.Seed>>3)%4 == 2}
+		pctx, pcancel := w.Ctx(3)
+		w.T.GetChannelAuthenticationCapabilities(pctx, &ipmi.GetChannelAuthenticationCapabilitiesReq{ExtendedData: true, Channel: ipmi.ChannelPresentInterface, MaxPrivilegeLevel: ipmi.PrivilegeLevelAdministrator})
+		pcancel()
+		if m != nil && (c.Seed>>3)%4 == 1 {
+			ev.Label("before-handshake:capabilities-say-one-key-login")
+		}
+	case 3:
+		pctx, pcancel := w.Ctx(3)
+		w.T.GetSystemGUID(pctx)
+		pcancel()
+	}
 	ctx, cancel := w.Ctx(12)
 	defer cancel()
 	s, err := w.T.NewV2Session(ctx, c.Opts())
@@ -529,7 +547,7 @@ func TestRandom(t *testing.T) {
 }
 
 func TestCoverage(t *testing.T) {
-	var need []string
+	need := []string{"before-handshake:capabilities-say-one-key-login"}
 	for _, a := range []int{1, 2, 3} {
 		for _, k := range []string{"flip:rakp2", "flip:open", "flip:rakp4", "status:open", "status:rakp2", "status:rakp4", "tag:rakp2", "cutPayload:rakp2", "cutRaw:rakp4", "statusShort:open", "zeroTailCut:rakp2", "zeroTailCut:rakp4"} {
 			need = append(need, fmt.Sprintf("auth%d:%s", a, k))
